@@ -1,7 +1,7 @@
 (** Correspondence and monitor for C13 (package rendering is deterministic and conserves objects). *)
 From Coq Require Import List Arith NArith Bool Lia Permutation.
 From Coq Require String.
-From PKO Require Import Util Collector CollectorProofs.
+From PKO Require Import Util Collector Templates CollectorProofs.
 Import ListNotations.
 Local Open Scope N_scope.
 
@@ -73,6 +73,34 @@ Definition monitor (c : case) : bool :=
   forallb (fun p => list_eqb N.eqb (ids_in out p)
                              (map o_id (filter (phase_is p) (concat_objects fs)))) phases &&
   forallb (fun e => forallb (obj_ok mname pname) (snd e)) out.
+
+(** ** The template stage *)
+(** What the harness saw of RenderTemplates: pkg.Files before (path, content digest), which paths
+    carry the template suffix and what they are called without it (the suffix rule of
+    packagetypes/utils.go:16-19, applied by the driver), and pkg.Files after a successful render. *)
+Definition tcase := (filelist * list N * list (N * N) * filelist)%type.
+
+(** The fixed stage ([render_templates_fixed]) run on the files before, with the observed outputs as
+    the execution oracle, must give exactly the files after: every packaged template was executed
+    and its output stored under the stripped name, nothing else was executed, added or changed. *)
+Definition tmodel (t : tcase) : option fmap :=
+  let '(init, tmpls, striptab, final) := t in
+  let strip := fun p => match alookup p striptab with Some q => q | None => p end in
+  render_templates_fixed (fun p => existsb (N.eqb p) tmpls) strip
+                         (fun p _ => alookup (strip p) final) init.
+
+Definition tagree (t : tcase) : bool :=
+  let '(init, _, _, final) := t in
+  match tmodel t with
+  | None => false
+  | Some m => forallb (fun k => option_eqb N.eqb (m k) (alookup k final)) (map fst init ++ map fst final)
+  end.
+
+(** The verdict does not depend on the order in which the harness listed the files before. *)
+Lemma tmodel_enum_invariant init init' tmpls striptab final :
+  Permutation init init' -> NoDup (map fst init) ->
+  tmodel (init, tmpls, striptab, final) = tmodel (init', tmpls, striptab, final).
+Proof. intros Hp Hnd. unfold tmodel. now apply templates_order_independent. Qed.
 
 Definition judge (c : case) : bool * bool * bool := (agree c, monitor c, expect_ok c).
 
